@@ -459,8 +459,8 @@ impl Profile {
     }
 }
 
-const POINT_POOL: [u32; 22] = [
-    0, 1, 2, 0x2f, 0x30, 0x39, 0x41, 0x5a, 0x61, 0x62, 0x63, 0x64, 0x7a, 0x7f, 0x80, 0xff, 0xfffd, 0xffff, 0x10000, 0x2fffd, 0x2fffe, 0x2ffff,
+const POINT_POOL: [u32; 26] = [
+    0, 1, 2, 0x2f, 0x30, 0x39, 0x41, 0x5a, 0x61, 0x62, 0x63, 0x64, 0x7a, 0x7f, 0x80, 0xff, 0xd7ff, 0xd800, 0xdfff, 0xe000, 0xfffd, 0xffff, 0x10000, 0x2fffd, 0x2fffe, 0x2ffff,
 ];
 
 pub fn gen_points(rng: &mut Rng, prof: Profile) -> Vec<u32> {
@@ -774,9 +774,45 @@ impl<'a> Gen<'a> {
         }
     }
 
+    /// a union / intersection-of-complements / concatenation with exactly N operands, N around a power of two
+    fn gen_wide_list(&mut self) {
+        let n = *self.rng.pick(&[7usize, 8, 9, 15, 16, 17, 31, 32, 33, 63, 64, 65]);
+        let base = 0x100 + self.rng.below(0x80) as u32 * 0x100;
+        let mut items = Vec::new();
+        for i in 0..n {
+            let c = base + 2 * i as u32;
+            let it = if self.rng.chance(1, 5) { self.push(Op::Range(c, c + 1), Kind::Atom) } else { self.push(Op::Char(c), Kind::Atom) };
+            items.push(it);
+        }
+        if self.rng.chance(1, 3) {
+            let d = items[self.rng.usize(items.len())];
+            items.push(d); // a duplicate operand
+        }
+        self.rng.shuffle(&mut items);
+        match self.rng.below(4) {
+            0 | 1 => {
+                let u = self.push(Op::UnionList(items), Kind::Other);
+                if self.rng.chance(1, 2) {
+                    self.push(Op::Star(u), Kind::Other);
+                }
+            }
+            2 => {
+                let comps: Vec<usize> = items.iter().map(|&i| self.push(Op::Comp(i), Kind::Other)).collect();
+                self.push(Op::InterList(comps), Kind::Other);
+            }
+            _ => {
+                self.push(Op::ConcatList(items), Kind::Pattern);
+            }
+        }
+    }
+
     fn step(&mut self) {
         if self.n() >= 3 && self.prof != Profile::Small && self.rng.chance(1, 40) {
             self.gen_constant_two_ways();
+            return;
+        }
+        if self.n() >= 3 && self.prof != Profile::Small && self.prof != Profile::Patterns && self.rng.chance(1, 150) {
+            self.gen_wide_list();
             return;
         }
         if self.n() < 3 {
